@@ -324,7 +324,8 @@ def run(ctx):
     tmp = []
     procs = []
     try:
-        _run(ctx, tmp, procs)
+        with G.Pin(["c44_tables"]):
+            _run(ctx, tmp, procs)
     finally:
         for p in procs:
             try:
